@@ -137,6 +137,27 @@ def run(ctx) -> None:
             x.append(x[-1] + rng.choice([1, -1]) * thr * d * rng.choice([1.0, 0.75, 1.25]))
         roc_case(ctx, x, t, thr, rng.choice(CARRIERS), "pseudo-regular")
         ctx.count("roc.pseudo_regular_axes")
+    # -- long records: a deployment resumed after a gap of more than 2^24 s (194 days), sampled every 1, 3 or 5 s afterwards;
+    #    the elapsed seconds of each step are exact whatever the distance from the first sample
+    for _ in range(ctx.pick(60, 300)):
+        n = rng.choice([6, 9, 14])
+        gap = rng.choice([2 ** 24 + 1, 2 ** 25 + 3, 3 * 10 ** 7 + 1, 2 ** 27 + 5])
+        t = [gen.T0, gen.T0 + rng.choice([1, 60])]
+        t.append(t[-1] + gap)
+        while len(t) < n:
+            t.append(t[-1] + rng.choice([1, 3, 5, 7]))
+        thr = rng.choice([0.125, 0.5, 1.0])
+        x = [gen.dyadic(rng)]
+        for k in range(1, n):
+            dtk = t[k] - t[k - 1]
+            x.append(x[-1] + rng.choice([1, -1]) * thr * (dtk if dtk < 100 else 1) * rng.choice([1.0, 0.75, 1.25, 0.5, 1.5]))
+        roc_case(ctx, x, t, thr, rng.choice(CARRIERS), "long-record")
+        lonr = [10.0 + 0.0001 * k for k in range(n)]
+        latr = [50.0] * n
+        sp_ = [models.geodist(latr[k - 1], lonr[k - 1], latr[k], lonr[k]) / (t[k] - t[k - 1]) for k in range(1, n)]
+        st_ = rng.choice(sorted(sp_)[1:]) * rng.choice([0.9, 1.1])
+        speed_case(ctx, lonr, latr, t, st_, st_ * 3, rng.choice(CARRIERS), "long-record")
+        ctx.count("roc.long_record_cases")
     # -- whole-number observations in every integer dtype (raw counts): a decrease is a negative change, not a wrap-around
     for _ in range(ctx.pick(120, 600)):
         n = rng.choice([3, 5, 8, 20])
